@@ -9,7 +9,7 @@
   construction (every model function is a total Lean function). `struct` / `gram`
   (`Spec/IdGrammar.lean`) are the required structure and the recommended grammar.
 -/
-import RumaModel.Lemmas.IdsGram
+import RumaModel.Lemmas.IdsCtor
 namespace Ruma.Props.C10
 open Ruma Ruma.Ids Ruma.Spec.IdGrammar
 
@@ -551,17 +551,31 @@ theorem constructor_accepted_key_from_parts (x : Ext) (k : Kind) (alg name : Str
   have hv := (keyIdValidate_ok_iff (ci := alg.length) hs).2 ⟨alg, name, ⟨rfl, hcol, halg, hname⟩, rfl⟩
   rcases hk with rfl | rfl | rfl <;> simp only [validate] <;> (simp only [keyKind] at hv; rw [hv]; rfl)
 
-/-- `UserId::new`, `RoomId::new`, `EventId::new` (sigil, a non-empty alphanumeric localpart, `:`, an
-accepted server name) build identifiers the parser accepts, provided they fit in 255 bytes (and,
-for room IDs, the server name has no NUL — true of every real server name). -/
-theorem constructor_accepted_new (x : Ext) (k : Kind) (lp server : Str)
-    (h : utf8Valid (newId (if k = .user then 64 else if k = .room then 33 else 36) lp server) = true)
+/-- Full-strength statement: `UserId::new`, `RoomId::new`, `EventId::new` (sigil, a random
+alphanumeric localpart, `:`, the given accepted server name) build identifiers the parser of the same
+type accepts. It is FALSE for the code as it is (see `constructor_new_not_always_accepted`): server
+names have no length limit and the constructors do not check the 255-byte limit of the result.
+(`0 ∉ server` for room IDs only restricts the external parameter `x.isIpv6`: a host of an accepted
+server name consists of letters, digits, `-`, `.` or is a bracketed literal `x.isIpv6` accepted, and
+`Ipv6Addr::from_str` accepts no NUL — see `ipv6Ref_chars`.) -/
+def constructor_accepted_newStatement : Prop :=
+  ∀ (x : Ext) (k : Kind) (lp server : Str),
+    utf8Valid (newId (newSigil k) lp server) = true → (k = .user ∨ k = .room ∨ k = .event) →
+    (∀ b ∈ lp, isAlnum b = true) → validate x .server server = .ok () → utf8Valid server = true →
+    (k = .room → 0 ∉ server) →
+    validate x k (newId (newSigil k) lp server) = .ok ()
+
+/-- Proved part: the identifiers built by `UserId::new`, `RoomId::new`, `EventId::new` are accepted
+PROVIDED the result fits in 255 bytes (`hlen`). Missing relative to the full statement: server names
+of 242 bytes or more (user IDs, 12-character localpart) / 236 bytes or more (room and event IDs,
+18-character localpart) — recorded as a known finding. -/
+theorem constructor_accepted_new_partial (x : Ext) (k : Kind) (lp server : Str)
+    (h : utf8Valid (newId (newSigil k) lp server) = true)
     (hk : k = .user ∨ k = .room ∨ k = .event)
     (hlp : ∀ b ∈ lp, isAlnum b = true) (hsrv : validate x .server server = .ok ())
-    (hsu : utf8Valid server = true)
-    (hlen : lp.length + server.length + 2 ≤ 255) (h0 : k = .room → 0 ∉ server) :
-    validate x k (newId (if k = .user then 64 else if k = .room then 33 else 36) lp server)
-      = .ok () := by
+    (hsu : utf8Valid server = true) (h0 : k = .room → 0 ∉ server)
+    (hlen : lp.length + server.length + 2 ≤ 255) :
+    validate x k (newId (newSigil k) lp server) = .ok () := by
   have hs := sep_of_utf8Valid _ h
   have hok := (serverNameValidate_ok_iff (sep_of_utf8Valid _ hsu)).1 hsrv
   have hc : 58 ∉ lp := by
@@ -569,14 +583,106 @@ theorem constructor_accepted_new (x : Ext) (k : Kind) (lp server : Str)
   have hn : 0 ∉ lp := by
     intro hm; have := hlp 0 hm; simp [isAlnum, isDigit, isLower, isUpper] at this
   rcases hk with rfl | rfl | rfl
-  · simp only [if_true, newId] at hs ⊢
+  · simp only [newSigil, newId] at hs ⊢
     exact (delimitedValidate_ok_iff hs (by omega) (by omega)).2
       ⟨lp, server, ⟨rfl, by simp; omega, hc, hok⟩, hn⟩
-  · simp only [newId] at hs ⊢
+  · simp only [newSigil, newId] at hs ⊢
     refine roomIdValidate_ok_iff.2 ⟨by simp; omega, rfl, ?_⟩
     simp [hn, h0 rfl]
-  · simp only [newId] at hs ⊢
+  · simp only [newSigil, newId] at hs ⊢
     exact (eventIdValidate_ok_iff hs).2 (.inl ⟨lp, server, rfl, by simp; omega, hc, hok⟩)
+
+/-- Negation witness (machine-checked finding): `UserId::new` with the 242-byte server name
+`aaa…a` builds `@` + 12 alphanumerics + `:` + server = 256 bytes, which `UserId::parse` rejects. -/
+theorem constructor_new_not_always_accepted : ¬ constructor_accepted_newStatement := by
+  intro h
+  have := h ⟨fun _ => false, fun _ => false, fun _ => false⟩ .user
+    (List.replicate 12 97) (List.replicate 242 97)
+    (by decide +kernel) (.inl rfl) (by decide +kernel) (by decide +kernel) (by decide +kernel)
+    (by intro hk; cases hk)
+  revert this
+  decide +kernel
+
+/-- The hypotheses of the partial theorem are satisfiable at the boundary: a 241-byte server name
+gives a 255-byte user ID. -/
+example : validate ⟨fun _ => false, fun _ => false, fun _ => false⟩ .user
+    (newId (newSigil .user) (List.replicate 12 97) (List.replicate 241 97)) = .ok () := by
+  decide +kernel
+
+/-- Full-strength statement: `OwnedBase64PublicKey::with_bytes` never panics and its result is
+accepted by the `Base64PublicKey` parser. FALSE for the code as it is (`with_bytes_empty_panics`). -/
+def constructor_with_bytesStatement : Prop :=
+  ∀ (x : Ext) (bytes : List Nat),
+    ∃ t, withBytes x bytes = .ok t ∧ validate x .base64PublicKey t = .ok ()
+
+/-- Proved part: for every NON-EMPTY byte string `with_bytes` returns its unpadded base64 text, and
+that text is accepted by the parser. Missing relative to the full statement: the empty byte string. -/
+theorem constructor_with_bytes_partial (x : Ext) (bytes : List Nat) (hne : bytes ≠ []) :
+    withBytes x bytes = .ok (b64 bytes) ∧ validate x .base64PublicKey (b64 bytes) = .ok () := by
+  have hv : base64PublicKeyValidate x (b64 bytes) = .ok () := by
+    apply gram_base64PublicKey
+    rw [nonEmptyAll_iff]
+    exact ⟨b64_ne_nil hne, b64_all bytes⟩
+  exact ⟨by simp [withBytes, hv], hv⟩
+
+/-- Negation witness (machine-checked finding): `with_bytes(b"")` encodes to the empty text, which
+`base64_public_key::validate` rejects (`Error::Empty`), and the constructor reaches
+`unreachable!()`: a panic. -/
+theorem with_bytes_empty_panics : ¬ constructor_with_bytesStatement := by
+  intro h
+  obtain ⟨t, ht, _⟩ := h ⟨fun _ => false, fun _ => false, fun _ => false⟩ []
+  revert ht
+  simp [withBytes, b64, base64PublicKeyValidate]
+
+example (x : Ext) : withBytes x [] = .panic := by simp [withBytes, b64, base64PublicKeyValidate]
+
+/-! ## `UserId` conformance accessors -/
+
+/-- On an accepted user ID the conformance accessors never panic; `validate_strict()` (the method)
+agrees with the free function `user_id::validate_strict`; it succeeds exactly when the localpart is in
+the specification's current user ID grammar (`1*user_id_char`); and `is_historical()` is true exactly
+when `validate_historical()` succeeds and `validate_strict()` does not. -/
+theorem accessors_user_conformance (x : Ext) (s : Str) (h : utf8Valid s = true)
+    (hv : validate x .user s = .ok ()) :
+    ∃ lp srv, s = 64 :: (lp ++ 58 :: srv)
+      ∧ userFullyConforming s = localpartFullyConforming lp
+      ∧ userFullyConforming s ≠ .panic
+      ∧ userStrict s = userIdValidateStrict x s
+      ∧ (userStrict s = .ok () ↔ nonEmptyAll userIdChar lp = true)
+      ∧ (userIsHistorical s = .ok true ↔ (userHistoricalOk s = .ok () ∧ userStrict s ≠ .ok ())) := by
+  have hs := sep_of_utf8Valid s h
+  obtain ⟨lp, srv, ⟨rfl, hlen, hlp, hsrv⟩, h0⟩ :=
+    (delimitedValidate_ok_iff hs (by omega) (by omega)).1 hv
+  obtain ⟨h1, _⟩ := accessors_delim hs (by omega) (by omega) hlp
+  have hfc : userFullyConforming (64 :: (lp ++ 58 :: srv)) = localpartFullyConforming lp := by
+    unfold userFullyConforming
+    rw [if_neg (by omega), h1]
+  have hnp := localpartFullyConforming_ne_panic lp
+  refine ⟨lp, srv, rfl, hfc, by rw [hfc]; exact hnp, ?_, ?_, ?_⟩
+  · unfold userStrict userIdValidateStrict
+    rw [hfc, if_neg (by omega),
+      (parseId_ok_iff hs (by omega)).2 ⟨lp, srv, ⟨rfl, hlen, hlp, hsrv⟩, rfl⟩]
+    simp only [slice_one_at hs (by omega : 64 < 128) (by omega : 58 < 128)]
+    cases localpartFullyConforming lp with
+    | ok c => cases c <;> rfl
+    | err => rfl
+    | panic => rfl
+  · unfold userStrict
+    rw [hfc, nonEmptyAll_iff, ← List.all_eq_true, all_congr userIdChar_eq]
+    unfold localpartFullyConforming
+    by_cases he : lp = []
+    · simp [he]
+    · by_cases ha : lp.all userIdCharOk = true
+      · simp [he, ha]
+      · by_cases hb : lp.any (fun b => decide (b < 33) || b == 58 || decide (b > 126)) = true
+        · simp [he, ha, hb]
+        · simp [he, ha, hb]
+  · unfold userIsHistorical userHistoricalOk userStrict
+    rw [hfc]
+    cases hc : localpartFullyConforming lp with
+    | ok c => cases c <;> simp [Res.void]
+    | err => simp [Res.void]
+    | panic => exact absurd hc hnp
 
 #print axioms validate_never_panics
 #print axioms validate_strict_never_panics
@@ -594,5 +700,9 @@ theorem constructor_accepted_new (x : Ext) (k : Kind) (lp server : Str)
 #print axioms constructor_accepted_parse_with_server_name
 #print axioms parse_with_server_name_total
 #print axioms constructor_accepted_key_from_parts
-#print axioms constructor_accepted_new
+#print axioms constructor_accepted_new_partial
+#print axioms constructor_new_not_always_accepted
+#print axioms constructor_with_bytes_partial
+#print axioms with_bytes_empty_panics
+#print axioms accessors_user_conformance
 end Ruma.Props.C10
